@@ -1191,6 +1191,8 @@ fn sig(api: &str, class: &str, what: &str) -> String {
 }
 
 fn main() {
+    // panics inside the verifiers are caught (and reported as results); keep stderr quiet
+    std::panic::set_hook(Box::new(|_| {}));
     for line in read_cases() {
         let m = kv(&line);
         let id = m.get("id").cloned().unwrap_or_else(|| "0".into());
@@ -1507,7 +1509,11 @@ fn main() {
                     let cps = vec![cp.clone()];
                     let view = View { inner: &world.provenance, wl: wid, hist: &entries, cps: Some(&cps) };
                     for t in label..=n as u64 {
-                        if let Ok(core) = seek_core(&world, w, &view, t, &mut intern) {
+                        let res = seek_core(&world, w, &view, t, &mut intern);
+                        if res.as_ref().err().is_some_and(|e| e == "PANIC") {
+                            flags.push(sig("restore-at-rest", &cname, "panic"));
+                        }
+                        if let Ok(core) = res {
                             if core != orig[t as usize] {
                                 let what = if core.sid != orig[t as usize].sid || core.root != orig[t as usize].root {
                                     "accepted-different-state"
